@@ -90,7 +90,10 @@ func (f *syntaxFilterQualifier) retrieveList(
 	var deepestTextLen int
 	var deepestError errorRuntime
 
-	valueList := f.query.compute(root, srcList)
+	valueList := make([]interface{}, len(srcList))
+	copy(valueList, srcList)
+
+	valueList = f.query.compute(root, valueList)
 
 	isEachResult := len(valueList) == len(srcList)
 
